@@ -546,7 +546,22 @@ def _trace_distance_rules(ctx, repo):
                 if s_.endswith('trace_distance_bound'):
                     return _true_trace_distance(list(np.angle(np.linalg.eigvals(np.array(_u, dtype=complex)))))   # what the wrapped value reports for itself
                 return NotImplemented
-            it = fdx.NumInterp({'self': {sub: 'SUB', '_' + sub: 'SUB'}}, call_hook=call_hook)
+            # the control model: one qutrit control that accepts the values 0 and 1 - two accepted assignments (as many as a qubit control has in all), yet the
+            # value 2 leaves the target alone, so controlled-U always has an identity block
+            cv_model = {'_conjunctions': [(0,), (1,)]}
+
+            def call_hook2(call, it, _h=call_hook, _cv=cv_model):
+                r_ = _h(call, it)
+                if r_ is not NotImplemented:
+                    return r_
+                s2_ = ast.unparse(call.func)
+                if s2_.endswith('control_values.expand'):
+                    return _cv
+                if s2_.endswith('.num_controls'):
+                    return 1
+                return NotImplemented
+            it = fdx.NumInterp({'self': {sub: 'SUB', '_' + sub: 'SUB', 'controls': ('c0',), '_controls': ('c0',), 'control_values': cv_model, '_control_values': cv_model,
+                                         'control_qid_shape': (3,), '_control_qid_shape': (3,)}}, call_hook=call_hook2)
             try:
                 got = it.call(fn)
             except fdx.Unsupported as ex:
